@@ -1,1 +1,7 @@
-//! model
+//! Reference models (independent of gimli).
+pub mod cfi;
+pub mod expr;
+pub mod forms;
+pub mod index;
+pub mod line;
+pub mod lists;
